@@ -165,6 +165,22 @@ def q2(rep, w):
     eq = any((callee_name(t) or '').endswith('PartialEq>::eq') or (callee_name(t) or '').endswith('::eq') for _, t in js.calls())
     r.check(any(callee_name(t) == GET for _, t in js.calls()) and eq, 'JumpIfStopIter compares the value\'s class with class_store.stop_iter_class()',
             'the loop-exit test no longer compares against the StopIter core class', js.loc())
+    # ... by the same test the adapters of the core library use (`next.derives(StopIter)`): the class of the value or any of its
+    # ancestors. An exact comparison lets an iterator that ends with an instance of a subclass of StopIter finish a map / filter
+    # chain but never a for loop (fix: see known_findings).
+    od = w.require_fn(CORE + 'object_derives', 'C18')
+
+    def walks_ancestry(g):
+        for bi in g.normal_blocks():
+            for s_ in g.blocks[bi]['s']:
+                rr = s_.get('r', {})
+                pl = rr.get('p') if rr.get('rv') == 'ref' else op_place(rr.get('o', {}) or {})
+                if pl and any(isinstance(e, dict) and e.get('n') == 'superclass' for e in pl.get('p', [])) and any(bi in g.reachable_blocks(x) for x in g.succs()[bi]):
+                    return True
+        return False
+    r.check(walks_ancestry(od) and walks_ancestry(js), 'JumpIfStopIter walks the superclass chain like derives()',
+            'JumpIfStopIter compares the class of the value with StopIter only, while derives() - which map / filter use - accepts subclasses: the two ways of iterating '
+            'disagree on when an iterator is exhausted (a for loop over it never ends)', js.loc())
     for kind, ty in KINDS:
         f = w.require_fn(CORE + kind + '_iter_next', 'C18')
         made = {s_['r']['closure'] for b in f.blocks for s_ in b['s'] if s_.get('r', {}).get('closure')}      # also those of a helper that was spliced in
